@@ -8,6 +8,7 @@ require (
 )
 
 require (
+	github.com/blang/semver v3.5.1+incompatible // indirect
 	github.com/davecgh/go-spew v1.1.1 // indirect
 	github.com/openacid/errors v0.8.1 // indirect
 	github.com/openacid/must v0.1.3 // indirect
